@@ -1,2 +1,77 @@
--- driver stub for C03: replaced by the real line-protocol driver
-def main : IO Unit := pure ()
+import Bermuda.Model.Json
+import Bermuda.Model.Heap
+import Bermuda.Generated.Accum
+open Lean Bermuda Bermuda.Heap
+
+/-!
+Driver of C03: runs the heap model of the accumulating helpers under the accumulator patterns
+regenerated from the source.
+  {"fn":"sum"|"wavg","values":[val…],"weights":["n/d"…]}
+  {"fn":"vadd"|"vdiff"|"merge","a":[[k,val]…],"b":[[k,val]…]}
+Answer {"model":{"ok":…}|{"err":…},"unchanged":bool,"alias":bool|[keys]}
+-/
+
+/-- put a wire value on the heap: arrays are allocated, scalars are immediate -/
+def allocVal (h : Heap) (v : Val) : Heap × Ref :=
+  match v with
+  | .none => (h, .none)
+  | .int i => (h, .scalar i)
+  | .flt q => (h, .scalar q)
+  | .arr _ _ d => let (h', l) := h.alloc (.arr d); (h', .loc l)
+
+def allocVals (h : Heap) : List Val → Heap × List Ref
+  | [] => (h, [])
+  | v :: vs =>
+    let (h1, r) := allocVal h v
+    let (h2, rs) := allocVals h1 vs
+    (h2, r :: rs)
+
+def allocDict (h : Heap) (d : Dict Val) : Heap × Loc :=
+  let (h1, rs) := allocVals h (d.map (·.2))
+  h1.alloc (.dict ((d.map (·.1)).zip rs))
+
+def refToJson (h : Heap) : Ref → Json
+  | .none => Json.null
+  | .scalar q => Val.toJson (.flt q)
+  | .loc l => match h.get l with
+    | some (.arr d) => Val.toJson (.arr false [d.length] d)
+    | _ => Json.str "<object>"
+
+def resultJson (f : Heap → Ref → Json) : Res → Json
+  | (h, .ok a) => Json.mkObj [("ok", f h a)]
+  | (_, .error e) => Json.mkObj [("err", Json.str e.name)]
+
+def handle (j : Json) : Except String Json := do
+  let fn ← (← j.getObjVal? "fn").getStr?
+  match fn with
+  | "sum" | "wavg" =>
+    let vals ← (← (← j.getObjVal? "values").getArr?).toList.mapM Val.fromJson
+    let ws ← (← (← j.getObjVal? "weights").getArr?).toList.mapM ratFromJson
+    let (h0, refs) := allocVals {} vals
+    let r := if fn == "sum" then conformingSum Generated.Accum.pattern__conforming_sum h0 refs
+             else conformingWeightedAverage Generated.Accum.pattern__conforming_weighted_average h0 refs ws
+    let unchanged := preservesB h0 r.1
+    let alias := match r with | (_, .ok (.loc l)) => decide (l < h0.size) | _ => false
+    return Json.mkObj [("model", resultJson refToJson r), ("unchanged", unchanged), ("alias", alias)]
+  | "vadd" | "vdiff" | "merge" =>
+    let a ← dictFromJson Val.fromJson (← j.getObjVal? "a")
+    let b ← dictFromJson Val.fromJson (← j.getObjVal? "b")
+    let (h1, la) := allocDict {} a
+    let (h0, lb) := allocDict h1 b
+    let r := if fn == "vadd" then valuesAdd Generated.Accum.pattern__values_add h0 la lb
+             else if fn == "vdiff" then valuesDiff Generated.Accum.pattern__values_diff h0 la lb
+             else mergeCellPair Generated.Accum.pattern__merge_cell_pair h0 (.loc la) (.loc lb)
+    let unchanged := preservesB h0 r.1
+    let entries (h : Heap) (x : Ref) : List (String × Ref) := match x with
+      | .loc l => match h.get l with | some (.dict es) => es | _ => []
+      | _ => []
+    let alias : List Json := match r with
+      | (h', .ok x) => (entries h' x).filterMap fun (e : String × Ref) => match e.2 with
+        | Ref.loc l => if l < h0.size then some (Json.str e.1) else none
+        | _ => none
+      | (_, .error _) => []
+    let out := resultJson (fun h x => Json.arr ((entries h x).map fun e => Json.arr #[Json.str e.1, refToJson h e.2]).toArray) r
+    return Json.mkObj [("model", out), ("unchanged", unchanged), ("alias", Json.arr alias.toArray)]
+  | o => throw s!"unknown fn {o}"
+
+def main : IO Unit := serve handle
